@@ -1,4 +1,4 @@
-CONSTANTS KFSkip = {}  Impl = "asfound"
+CONSTANTS KFSkip = {}  Impl = "asfound"  Big = FALSE
 SPECIFICATION Spec
 CONSTRAINT JudgeOnly
 INVARIANT TriggersExact
